@@ -6,10 +6,11 @@
 # Prints a one-line summary; copies the artefacts to /verif/seeded/<ID>-<k>/ .
 set -u
 ID="$1"; K="$2"; CHK="${3:-$ID}"
-WT=/tmp/wt-$ID; M=$WT/mutants/$K
+WT=${WT_PREFIX:-/tmp/wt}-$ID; M=$WT/mutants/$K
+NAME=${SEED_NAME:-$ID-$K}
 cd "$WT" || exit 2
 git checkout -q -- src 2>/dev/null
-git apply --check "$M/patch.diff" || { echo "SEEDED $ID-$K: patch does not apply"; exit 2; }
+git apply --check "$M/patch.diff" || { echo "SEEDED $NAME: patch does not apply"; exit 2; }
 demo=$(ls "$M" | grep -E '^demo' | head -1)
 run_demo() {
   case "$demo" in
@@ -24,11 +25,11 @@ failed=$(grep -E "^test result" /tmp/seeded-suite.log | awk '{f+=$6} END {print 
 run_demo; with=$?
 git checkout -q -- src
 run_demo; without=$?
-echo "SEEDED $ID-$K: suite_exit=$suite failed_tests=$failed demo_with_patch_exit=$with demo_without_exit=$without"
-mkdir -p /verif/seeded/$ID-$K
-cp "$M/patch.diff" /verif/seeded/$ID-$K/patch.diff
-cp "$M/$demo" /verif/seeded/$ID-$K/$demo
-cp "$M/README.md" /verif/seeded/$ID-$K/README.agent.md 2>/dev/null
+echo "SEEDED $NAME: suite_exit=$suite failed_tests=$failed demo_with_patch_exit=$with demo_without_exit=$without"
+mkdir -p /verif/seeded/$NAME
+cp "$M/patch.diff" /verif/seeded/$NAME/patch.diff
+cp "$M/$demo" /verif/seeded/$NAME/$demo
+cp "$M/README.md" /verif/seeded/$NAME/README.agent.md 2>/dev/null
 # now my check
 cd /repo && git diff --quiet || { echo "repo dirty"; exit 2; }
 git apply "$M/patch.diff" || { echo "apply to /repo failed"; exit 2; }
@@ -36,4 +37,4 @@ cd /verif && VERIF_MAX_REPORTS=1 ./check "$CHK" quick > /tmp/seeded-check.log 2>
 git -C /repo checkout -- .
 grep -E "^VIOLATION|^  class=|harness error" /tmp/seeded-check.log | head -3
 tail -1 /tmp/seeded-check.log
-echo "SEEDED $ID-$K: check_exit=$rc"
+echo "SEEDED $NAME: check_exit=$rc"
